@@ -36,6 +36,9 @@ pub mod c04 {
     wrap!(Display, Debug, Binary, Octal, LowerHex, UpperHex, LowerExp, UpperExp, Pointer);
     pub trait Assoc { type Out; }
     impl<T> Assoc for W<T> { type Out = T; }
+    /// projection whose *self type is concrete* and whose parameter only occurs in the trait's arguments
+    pub trait AssocArg<T> { type Out; }
+    impl<T> AssocArg<T> for u8 { type Out = W<T>; }
 }
 pub use c04::*;
 /// `impls!(Type: Trait)` — does `Type` implement `Trait`? (stable; inherent associated const shadows the trait's)
@@ -69,7 +72,14 @@ fn only_of(ty: &str) -> String {
 
 /// field type forms mentioning parameter `p` that implement trait `ty` whenever `p` does
 fn forms_for(ty: &str, p: &str, d: &mut Dice, lt: &mut bool) -> String {
-    let mut forms: Vec<String> = vec![p.to_string(), format!("W<{p}>"), format!("W<W<{p}>>"), format!("<W<{p}> as Assoc>::Out")];
+    let mut forms: Vec<String> = vec![
+        p.to_string(),
+        format!("W<{p}>"),
+        format!("W<W<{p}>>"),
+        format!("<W<{p}> as Assoc>::Out"),
+        format!("<u8 as AssocArg<{p}>>::Out"),
+        format!("W<<u8 as AssocArg<{p}>>::Out>"),
+    ];
     if ty.is_empty() || ty == "?" {
         // std implements only Display/Debug/Pointer for Box<T>
         forms.push(format!("Box<{p}>"));
@@ -201,8 +211,15 @@ fn gen_container(d: &mut Dice, attr: &str, derived_ty: &'static str, plans: &mut
             }
             Plan::UserBound => {
                 lit_needed = true;
-                pieces.push(format!("{{{}}}", args.iter().filter(|a: &&String| !a.contains(" = ")).count()));
-                args.push(format!("{raw_name}.show()"));
+                if named && d.chance(40) {
+                    // a named argument shadowing the field of the same name: the placeholder formats the expression
+                    pieces.push(format!("{{{ref_name}}}"));
+                    args.push(format!("{raw_name} = {raw_name}.show()"));
+                    labels.push("alias_shadows_field_with_expression".into());
+                } else {
+                    pieces.push(format!("{{{}}}", args.iter().filter(|a: &&String| !a.contains(" = ")).count()));
+                    args.push(format!("{raw_name}.show()"));
+                }
                 extra_bounds.push(format!("{pn}: Show"));
                 labels.push("expression_argument_with_user_bound".into());
                 c.fields.push((vec![], decl_name, pn.clone()));
